@@ -74,6 +74,7 @@ def run(prop, tier):
 
 def replay(prop, path):
     out = C.Outcome(prop, "quick")
+    out.no_evidence = True
     wd = C.workdir("xpssr")
     try:
         v = json.load(open(path))
